@@ -184,6 +184,11 @@ func c05Operands() []c05Operand {
 	for _, h := range hostile {
 		ops = append(ops, c05Operand{"hostile(" + h[:min(len(h), 12)] + ")", "n:" + h, ""})
 	}
+	// strings at the edges of every parser behind a method (number, integer, boolean, datetime)
+	for _, h := range []string{"", " ", "+", "-", ".", "e", "0x", "0x1F", "0b", "0o7", "1_0", "010", "+1", "-", "1e", "1e+", "inf", "-Infinity", "NaN", "nan", "t", "T", "tru", "yes", "on", "0", "1", "00", "-0",
+		"9223372036854775808", "1e400", "2015", "2015-08", "24:00:00", "12:34:56+", "12:34:56+24", "2015-08-02T", "\u0000", "\ufffd", strings.Repeat("9", 400)} {
+		ops = append(ops, c05Operand{"hostile-string(" + h[:min(len(h), 12)] + ")", "s:" + h, ""})
+	}
 	return ops
 }
 
@@ -242,7 +247,7 @@ func c05Matrix(c Case) *Failure {
 func isDTOperand(o c05Operand) bool { return o.suffix != "" }
 
 func runC05(r *Run) {
-	r.Rule("(1) the C06 program/document space, all five entry points, verbose and silent; (2) a type-pair matrix: every comparison, arithmetic and string operator, connective, filter, subscript and exists over every ordered pair of operand kinds {null, bool, int64, float64, json.Number, string, numeric string, array, empty array, object, date, time, timetz, timestamp, timestamptz} plus 16 hostile json.Number spellings (beyond float64 range, beyond int64, exponent forms, -0, 40-digit integers, 400-digit fractions), and every method / unary operator / accessor over every kind, both modes, verbose and silent, with and without WithTZ; invariants on every execution: no panic; error nil, or wraps ErrExecution, or NULL from Exists/Match/ExistsOrMatch only; never ErrInvalid; document and variables equal an independent fresh decode afterwards; every returned number finite; every returned container pointer-identical to a sub-value of the input or a keyvalue triple; non-trivial = every case (each a distinct program/input)")
+	r.Rule("(1) the C06 program/document space, all five entry points, verbose and silent; (2) a type-pair matrix: every comparison, arithmetic and string operator, connective, filter, subscript and exists over every ordered pair of operand kinds {null, bool, int64, float64, json.Number, string, numeric string, array, empty array, object, date, time, timetz, timestamp, timestamptz} plus 16 hostile json.Number spellings (beyond float64 range, beyond int64, exponent forms, -0, 40-digit integers, 400-digit fractions) and 40 hostile strings (empty, signs, radix prefixes, exponent stubs, inf/nan spellings, boolean spellings, partial datetimes), and every method / unary operator / accessor over every kind, both modes, verbose and silent, with and without WithTZ; invariants on every execution: no panic; error nil, or wraps ErrExecution, or NULL from Exists/Match/ExistsOrMatch only; never ErrInvalid; document and variables equal an independent fresh decode afterwards; every returned number finite; every returned container pointer-identical to a sub-value of the input or a keyvalue triple; non-trivial = every case (each a distinct program/input)")
 	paths := epPaths(r)
 	docs := epDocs()
 	r.Bound("paths", len(paths))
